@@ -72,6 +72,10 @@ type zzsOp struct {
 type zzsCommand struct {
 	ops  []zzsOp
 	fail bool
+	// checkpointAt >= 0: the command takes a checkpoint of its own (ctx.Snapshot(), never restored by it)
+	// before operation number checkpointAt (len(ops) = after the last one)
+	checkpointAt int
+	useCheckpoint bool
 }
 
 var zzsErr = errors.New("zzs: command failed")
@@ -82,13 +86,19 @@ func (c *zzsCommand) Verify(ctx *TransactionVerifyContext) VerifyResult {
 	return NewVerifyResultOK()
 }
 func (c *zzsCommand) Execute(ctx *TransactionExecuteContext) error {
-	for _, op := range c.ops {
+	for i, op := range c.ops {
+		if c.useCheckpoint && c.checkpointAt == i {
+			_ = ctx.Snapshot()
+		}
 		st := ctx.GetStore([]byte{0, 0, 0, byte(1 + op.store)}, []byte{0, 0})
 		if op.del {
 			st.Del([]byte{op.key})
 		} else {
 			st.Set([]byte{op.key}, []byte{op.val})
 		}
+	}
+	if c.useCheckpoint && c.checkpointAt >= len(c.ops) {
+		_ = ctx.Snapshot()
 	}
 	_ = ctx.EventQueue().Add("mod", "custom", []byte{1}, nil)
 	if c.fail {
@@ -316,5 +326,51 @@ func zzH_C16_block_commit_revert(t *zzT) {
 	t.Assert(dump(backing) == model, "the committed store is the previous store with the block's successful writes applied")
 	diffdb.New(backing, []byte{}).RevertDiff(backing, diff)
 	t.Assert(dump(backing) == orig, "reverting the block's diff restores the previous store exactly")
+	t.Reach("end")
+}
+
+// C16.b with commands that take checkpoints of their own (the Snapshot method of the execution
+// context, which modules may call): two transactions of one block share the block's staged store and
+// its snapshot table. The first command takes a checkpoint and succeeds; the second writes, takes a
+// checkpoint at a symbolic point, writes again and fails. The failed command must leave the staged
+// state exactly as the first transaction left it — whatever checkpoints either command took.
+//
+//zz:opt loop=80 require=end
+func zzH_C16_checkpointing_commands(t *zzT) {
+	backing := &zzsStore{}
+	backing.kvs = append(backing.kvs, &zzsKV{k: append(ModuleStorePrefix([]byte{0, 0, 0, 1}, []byte{0, 0}), 0), v: []byte{9}})
+	state := diffdb.New(backing, []byte{})
+	read := func() [3][2]byte {
+		var r [3][2]byte
+		v := state.WithPrefix(ModuleStorePrefix([]byte{0, 0, 0, 1}, []byte{0, 0}))
+		for k := 0; k < 3; k++ {
+			if val, ok := v.Get([]byte{byte(k)}); ok {
+				r[k] = [2]byte{1, val[0]}
+			}
+		}
+		return r
+	}
+	cmd := &zzsCommand{}
+	ex := NewExecuter()
+	ex.Init(zzsLogger{})
+	ex.modules = append(ex.modules, &zzsModule{cmd: cmd})
+	events := NewEventLogger(7)
+	run := func(nonce uint64) {
+		tx := &blockchain.Transaction{Module: "mod", Command: "cmd", Nonce: nonce, SenderPublicKey: bytes.Repeat([]byte{1}, 32), Params: []byte{}}
+		tx.Init()
+		ctx := NewTransactionExecuteContext(context.Background(), zzsLogger{}, []byte{0, 0, 0, 1}, state, events,
+			&blockchain.BlockHeader{Height: 7}, nil, nil, false, 0, tx)
+		ex.ExecuteTransaction(ctx)
+	}
+	// transaction 1: checkpoint (kept), one write, success
+	cmd.ops = []zzsOp{{store: 0, key: 1, val: t.U8("tx1.val")}}
+	cmd.fail, cmd.useCheckpoint, cmd.checkpointAt = false, t.Bool("tx1.checkpoint"), 0
+	run(1)
+	after1 := read()
+	// transaction 2: write, checkpoint somewhere, write, fail
+	cmd.ops = []zzsOp{{store: 0, key: 2, val: t.U8("tx2.val")}, {store: 0, del: t.Bool("tx2.del"), key: 0, val: t.U8("tx2.val2")}}
+	cmd.fail, cmd.useCheckpoint, cmd.checkpointAt = true, t.Bool("tx2.checkpoint"), t.Choice("tx2.checkpointAt", 3)
+	run(2)
+	t.Assert(read() == after1, "a failed command leaves the staged state as before it, whatever checkpoints the commands of the block took")
 	t.Reach("end")
 }
